@@ -472,8 +472,12 @@ class HttpParser:
         )
         k = self.add_header(key, value)
         # b'content-length' in self.headers and int(self.header(b'content-length')) > 0
-        if k == b'content-length' and int(value) > 0:
-            self._content_expected = True
+        #
+        # A repeated content-length header replaces the stored value,
+        # the flag must follow it.  Otherwise e.g. 5 followed by 0 leaves
+        # a parser which expects content of length zero and never completes.
+        if k == b'content-length':
+            self._content_expected = int(value) > 0
         # return b'transfer-encoding' in self.headers and \
         #   self.headers[b'transfer-encoding'][1].lower() == b'chunked'
         elif k == b'transfer-encoding' and value.lower() == b'chunked':
